@@ -179,11 +179,12 @@ impl Check for HistCheck {
                 // independent scanner is dropped (the two parsers may disagree on such input), and a panic is C03's business.
                 let keys = ["n1", "n2", "d1/n3"];
                 let mut initial = BTreeMap::new();
+                let mut text = |rng: &mut Rng| if rng.chance(1, 2) { crate::checks::crash03::soup(rng, 40) } else { crate::checks::crash03::shapes(rng, 6) };
                 for k in keys.iter().take(rng.range(1, 3)) {
-                    initial.insert(k.to_string(), crate::checks::crash03::soup(&mut rng, 40));
+                    initial.insert(k.to_string(), text(&mut rng));
                 }
                 let steps = (0..rng.range(1, 6))
-                    .map(|_| hist::Step { key: rng.pick(&keys).to_string(), text: crate::checks::crash03::soup(&mut rng, 40), what: "soup".into(), insert: rng.chance(1, 4) })
+                    .map(|_| hist::Step { key: rng.pick(&keys).to_string(), text: text(&mut rng), what: "soup".into(), insert: rng.chance(1, 4) })
                     .collect();
                 let hh = History { initial, steps };
                 rep.count("hostile_histories", 1);
